@@ -993,6 +993,63 @@ def dispatch_cases(tier):
     return out
 
 
+# ------------------------------------------- one grid object, moved in place
+FN_MOVE = 'mc.checks.c10_sources:case_moved'
+MOVES = ((75.0, -60.0, 45.0), (-300.0, 0.0, 0.0), (0.25, 0.25, -0.25),
+         (5e5, 6.7e6, -1500.0))
+
+
+def case_moved(c):
+    """The same TensorMesh OBJECT is used for a source field, re-positioned
+    in place (grid.origin = ...), and used again: the second field equals the
+    one computed on a newly created grid at the new position (nothing of the
+    first use may stay with the grid object)."""
+    import emg3d
+    spec = GRIDS['G1']
+    h = [np.array(x, dtype=float)*spec['unit'] for x in spec['h']]
+    grid = emg3d.TensorMesh(h, origin=spec['origin'])
+    ta, tb = c['a'], c['b']
+    viol, compared = [], 0
+    pts0 = np.array([coord(grid, ta), coord(grid, tb)])
+    emg3d.get_source_field(grid, emg3d.TxElectricDipole(pts0), 1.0)
+    for k, mv in enumerate([MOVES[i] for i in c['moves']]):
+        grid.origin = np.array(grid.origin) + np.array(mv)
+        fresh = emg3d.TensorMesh(h, origin=tuple(grid.origin))
+        pts = np.array([coord(fresh, ta), coord(fresh, tb)])
+        src = emg3d.TxElectricDipole(pts, strength=2.0)
+        try:
+            got = emg3d.get_source_field(grid, src, 1.0).field
+        except ValueError as e:
+            viol.append({'cls': 'source-on-moved-grid-refused',
+                         'what': f'move {k} by {mv}: {str(e)[:100]}'})
+            break
+        want = emg3d.get_source_field(fresh, src, 1.0).field
+        compared += 1
+        sc = np.abs(want).max()
+        if not np.abs(got - want).max() <= 1e-9*sc:
+            viol.append({
+                'cls': 'source-field-depends-on-earlier-use-of-the-grid',
+                'what': f'dipole tokens {ta}->{tb}, grid object moved '
+                        f'{k+1}x (last by {mv}): differs from the field on a '
+                        f'new grid by {np.abs(got - want).max()/sc:.2e}'})
+            break
+    return {'viol': viol, 'compared': compared,
+            'transitions': len(c['moves']) + 1, 'nontrivial': True,
+            'outcome': (len(c['moves']), bool(viol))}
+
+
+def moved_cases(tier):
+    toks = tokens(([0, 1.5, 2.3, 3],)*3)
+    pairs = [(a, b) for a in toks[::5] for b in toks[::7] if a != b]
+    if tier == 'quick':
+        pairs = pairs[::3]
+    out = []
+    for a, b in pairs:
+        for mv in itertools.permutations(range(len(MOVES)), 2):
+            out.append({'a': a, 'b': b, 'moves': list(mv)})
+    return out
+
+
 def prepare(ctx):
     """Import emg3d (and build the grids) once in the parent; the forked
     workers inherit the loaded modules."""
@@ -1024,6 +1081,13 @@ def run(ctx):
         "27 points, 3..8 (+closed) over 8 points")
     cap = ctx.budget
     q = ctx.quick
+    if ctx.wants('moved-grid'):
+        ctx.explore('moved-grid', FN_MOVE, moved_cases(ctx.tier), engine='E2',
+                    rule='dipoles on ONE TensorMesh object that is used, '
+                         'moved in place (all ordered pairs of 4 moves) and '
+                         'used again; equals the field on a newly created '
+                         'grid at the same position',
+                    time_cap=cap or (160 if q else 400))
     if ctx.wants('dipoles'):
         ctx.explore('dipoles', FN_DIP, dipole_cases(ctx.tier), engine='E1',
                     rule='all ordered pairs of the electrode alphabet on two '
